@@ -69,6 +69,45 @@ def check_records(ck, recs, cfg_by_name, *, render=True, tokens=True, kind="c12"
     return n_bad
 
 
+# --------------------------------------------------------------------------
+# hand-over chains (syntax only): neighbouring tags separated by nothing or by a short, mostly
+# blank text.  Every rule match of the tokenizer hands two facts to the next one - where it
+# stopped and whether that is the start of a line - and lstrip_blocks / '-' at the next tag
+# depend on them.  A raw block is the case where two different rules meet ({% raw %} is matched
+# by the root rule, {% endraw %} by the raw-state rule), so it is drawn twice as often.
+# --------------------------------------------------------------------------
+LEAD = ["", "", "n", "an", "n_", "ant", "a", "a_", "nn", "_"]
+GAP = ["_", "__", "t", "_t", "w", "n", "n_", "_n", "", "a", "a_", "_a", "n_a_"]
+TAIL = ["", "n", "a", "na", "_n"]
+CHAIN_BODIES = {"block": ["_B_", "B", "_nB_"], "var": ["_V_", "V"], "comment": ["_a_", "a", "_an_"],
+                "rawopen": ["_R_", "R", "nR_"], "rawclose": ["_E_", "E", "_En"]}
+
+
+def gen_handover(rng, cfg):
+    ps = []
+    lead = rng.choice(LEAD)
+    if lead:
+        ps.append(lu.text(lead))
+    n_tags = rng.randint(2, 3)
+    in_raw = False
+    k = 0
+    while k < n_tags or in_raw:
+        kind = "rawclose" if in_raw else rng.choice(["block", "comment", "var", "rawopen", "rawopen"])
+        l = rng.choice(lu.SIGNS)
+        r = rng.choice(lu.SIGNS if kind in ("block", "comment", "rawclose") else ("", "-"))
+        ps.append(lu.P(kind, l, r, rng.choice(CHAIN_BODIES[kind])))
+        in_raw = kind == "rawopen"
+        k += 1
+        if k < n_tags or in_raw:
+            gap = rng.choice(GAP)
+            if gap:
+                ps.append(lu.text(gap))
+    tail = rng.choice(TAIL)
+    if tail:
+        ps.append(lu.text(tail))
+    return ps
+
+
 C12_INVARIANTS = [
     "InputsWellFormed", "C11_NormalizeAgrees", "C11_CommentsSilent", "C11_RawVerbatim",
     "C12_StructuredSourcesLex", "C12_OperationalEqualsDeclared", "C12_OnlyWhitespaceRemoved",
@@ -107,21 +146,30 @@ def run(ck):
 
     # (2) random longer sources over the rich alphabet (tabs, other whitespace, \r\n, multi-line
     #     tags, comment / raw bodies with delimiter look-alikes), all four settings each
-    n = 1200 if quick else 15000
+    n = 1000 if quick else 15000
     allcfgs = cfgs + four_cfgs(keep=True) + four_cfgs(nl="rn")
     by_name.update({c["name"]: c for c in allcfgs})
+    cases = []
+    for _ in range(n):
+        ps = lu.gen_structured(rng, cfgs[0], rng.randint(3, 7))
+        base = rng.choice([0, 0, 0, 4, 8])
+        for j in range(4):
+            cases.append({"ps": ps, "c": base + j, "st": True})
+    # (3) hand-over chains: [text] tag (gap tag){1,2} [text] - what one tag's match leaves behind
+    #     (consumed up to where? at the start of a line?) meets the left side of the next tag
+    n_chain = 600 if quick else 8000
+    for _ in range(n_chain):
+        ps = gen_handover(rng, cfgs[0])
+        base = rng.choice([0, 0, 0, 4, 8])
+        for j in range(4):
+            cases.append({"ps": ps, "c": base + j, "st": True})
+    ck.extra["handover_chain_cases"] = n_chain * 4
     total = 0
-    for part in core.chunks(list(range(n)), 15000):
-        cases = []
-        for _ in part:
-            ps = lu.gen_structured(rng, cfgs[0], rng.randint(3, 7))
-            base = rng.choice([0, 0, 0, 4, 8])
-            for j in range(4):
-                cases.append({"ps": ps, "c": base + j, "st": True})
-        r, recs = lu.run_lexer("C12", "batch", cases=cases, cfgs=allcfgs, invariants=C12_INVARIANTS, timeout=3000)
-        ck.add_tlc(r, f"Lexer (batch of {len(cases)} generated cases)")
-        if len(recs) != len(cases):
-            raise core.MachineryError(f"TLC finished {len(recs)} of {len(cases)} cases")
+    for part in core.chunks(cases, 48000):
+        r, recs = lu.run_lexer("C12", "batch", cases=part, cfgs=allcfgs, invariants=C12_INVARIANTS, timeout=3000)
+        ck.add_tlc(r, f"Lexer (batch of {len(part)} generated cases)")
+        if len(recs) != len(part):
+            raise core.MachineryError(f"TLC finished {len(recs)} of {len(part)} cases")
         check_records(ck, recs, by_name)
         total += len(recs)
     ck.extra["random_cases"] = total
